@@ -74,18 +74,24 @@ class CooperativePeer(object):
     well-behaved peer would (C-STORE-RSP to a C-STORE-RQ, N-EVENT-REPORT-RSP,
     A-RELEASE-RP to an A-RELEASE-RQ)."""
 
-    def __init__(self, store_statuses=None):
+    def __init__(self, store_statuses=None, refuse=False, silent_on_release=False):
         self.store_statuses = list(store_statuses or [])
         self.stores = []
         self.answered = 0
+        self.refuse = refuse                        # answer the A-ASSOCIATE-RQ with a rejection
+        self.silent_on_release = silent_on_release  # never confirm the A-RELEASE-RQ
 
     def __call__(self, stub):
-        from pynetdicom2 import pdu as P
+        from pynetdicom2 import pdu as P, exceptions
         if stub.sent and stub.sent[-1][0] == 'pdu':
             last = stub.sent[-1][1]
             if getattr(last, 'pdu_type', None) == 5:
+                if self.silent_on_release:
+                    raise exceptions.DCMTimeoutError()
                 return P.AReleaseRpPDU()
             if getattr(last, 'pdu_type', None) == 1:
+                if self.refuse:
+                    return P.AAssociateRjPDU(1, 1, 7)
                 return accept_all_reply(stub)
         msgs = sent(stub)
         if self.answered < len(msgs):
